@@ -2,6 +2,7 @@ package executor
 
 import (
 	"context"
+	"sync"
 
 	"github.com/vektah/gqlparser/v2/ast"
 	"github.com/vektah/gqlparser/v2/gqlerror"
@@ -30,6 +31,33 @@ type Executor struct {
 }
 
 var _ graphql.GraphExecutor = &Executor{}
+
+// gqlparser keeps its validation rules in a package-level list that is not safe
+// for concurrent use: it is changed under validationRulesMu, once, and every
+// validation holds the read lock.
+var (
+	validationRulesMu      sync.RWMutex
+	swapOutSuggestionsOnce sync.Once
+)
+
+func validate(schema *ast.Schema, doc *ast.QueryDocument, disableSuggestion bool) gqlerror.List {
+	// swap out the FieldsOnCorrectType rule with one that doesn't provide suggestions
+	if disableSuggestion {
+		swapOutSuggestionsOnce.Do(func() {
+			validationRulesMu.Lock()
+			defer validationRulesMu.Unlock()
+			validator.RemoveRule("FieldsOnCorrectType")
+
+			rule := rules.FieldsOnCorrectTypeRuleWithoutSuggestions
+			// rule may already have been added
+			validator.ReplaceRule(rule.Name, rule.RuleFunc)
+		})
+	}
+
+	validationRulesMu.RLock()
+	defer validationRulesMu.RUnlock()
+	return validator.Validate(schema, doc)
+}
 
 // New creates a new Executor with the given schema, and a default error and
 // recovery callbacks, and no query cache or extensions.
@@ -223,16 +251,7 @@ func (e *Executor) parseQuery(
 		return nil, gqlerror.List{gqlErr}
 	}
 
-	// swap out the FieldsOnCorrectType rule with one that doesn't provide suggestions
-	if e.disableSuggestion {
-		validator.RemoveRule("FieldsOnCorrectType")
-
-		rule := rules.FieldsOnCorrectTypeRuleWithoutSuggestions
-		// rule may already have been added
-		validator.ReplaceRule(rule.Name, rule.RuleFunc)
-	}
-
-	listErr := validator.Validate(e.es.Schema(), doc)
+	listErr := validate(e.es.Schema(), doc, e.disableSuggestion)
 	if len(listErr) != 0 {
 		for _, e := range listErr {
 			errcode.Set(e, errcode.ValidationFailed)
